@@ -4,29 +4,115 @@ import SpecterModel.C45.Model
 
 `atomic_replace_safe`: for EVERY op list of the atomic-replace shape (decidable predicate
 `isAtomicReplace`, evaluated by the driver on the strace-recorded operations of the real
-`Config.writeFile`), every crash image of the config path after every prefix is the old or the new
-content. `truncate_in_place_unsafe` / `rename_without_fsync_unsafe`: the two classic broken shapes
-have a crash image that is neither.
+`Config.writeFile`) whose temporary name is private (`tmpPrivate`, also evaluated by the driver on
+the recorded start state), every crash image of the config path after every prefix is the old or the
+new content — whether the config path is a regular file or a symbolic link (chain) to one: images are
+read through links, the rename replaces the link itself. `atomic_replace_never_writes_old`: the file
+that held the old configuration is never written by such a save. `truncate_in_place_unsafe` /
+`truncate_through_link_unsafe` / `rename_without_fsync_unsafe`: the classic broken shapes have a crash
+image that is neither.
 -/
 namespace Specter.C45
 
-/-- Quiescent start: `path` names a file whose content `old` is entirely on stable storage, no other
-name is a hard link to that inode, every inode in the directory is below `next`. -/
-def Base (path : String) (old : List Nat) (s : Fs) : Prop :=
-  ∃ i0, s.dir path = some i0 ∧ s.file i0 = ⟨old, old.length⟩ ∧
-    (∀ q, q ≠ path → s.dir q ≠ some i0) ∧ (∀ q i, s.dir q = some i → i < s.next)
+/-! ## path resolution facts -/
 
-/-- `path` still names the untouched old file; `tmp` names a different inode `i1`. -/
-def Pre (path : String) (old : List Nat) (tmp : String) (i1 : Nat) (s : Fs) : Prop :=
-  ∃ i0, s.dir path = some i0 ∧ s.file i0 = ⟨old, old.length⟩ ∧ i1 ≠ i0 ∧ tmp ≠ path ∧ s.dir tmp = some i1
+theorem upd_same {α β} [DecidableEq α] (f : α → β) (a : α) (b : β) : upd f a b a = b := by simp [upd]
+theorem upd_other {α β} [DecidableEq α] (f : α → β) (a x : α) (b : β) (h : x ≠ a) : upd f a b x = f x := by
+  simp [upd, h]
 
-def Inv (path : String) (old new : List Nat) : Phase → Fs → List FsOp → Prop
-  | .start, s, rest => Base path old s ∧ pending rest = new
+theorem resolve_file {dir : String → Option Entry} {p : String} {i : Nat} (f : Nat)
+    (h : dir p = some (.file i)) : resolve dir f p = some (p, some i) := by
+  cases f <;> simp [resolve, h]
+
+theorem resolve_absent {dir : String → Option Entry} {p : String} (f : Nat)
+    (h : dir p = none) : resolve dir f p = some (p, none) := by
+  cases f <;> simp [resolve, h]
+
+theorem resolve_link {dir : String → Option Entry} {p q : String} (f : Nat)
+    (h : dir p = some (.link q)) : resolve dir (f + 1) p = resolve dir f q := by
+  simp [resolve, h]
+
+/-- a resolution that finds a file ends at a regular-file entry -/
+theorem resolve_end {dir : String → Option Entry} : ∀ (f : Nat) (p q : String) (i : Nat),
+    resolve dir f p = some (q, some i) → dir q = some (.file i) := by
+  intro f
+  induction f with
+  | zero =>
+    intro p q i h
+    simp only [resolve] at h
+    split at h <;> simp at h
+    obtain ⟨rfl, rfl⟩ := h; assumption
+  | succ f ih =>
+    intro p q i h
+    simp only [resolve] at h
+    split at h
+    · simp at h
+    · simp at h; obtain ⟨rfl, rfl⟩ := h; assumption
+    · exact ih _ _ _ h
+
+/-- creating a name that did not exist does not change where an existing file is found -/
+theorem resolve_upd_absent {dir : String → Option Entry} {x : String} (e : Option Entry) (hx : dir x = none) :
+    ∀ (f : Nat) (p q : String) (i : Nat), resolve dir f p = some (q, some i) →
+      resolve (upd dir x e) f p = some (q, some i) := by
+  intro f
+  induction f with
+  | zero =>
+    intro p q i h
+    have hp : p ≠ x := by
+      intro e'; subst e'; simp [resolve, hx] at h
+    simpa [resolve, upd, hp] using h
+  | succ f ih =>
+    intro p q i h
+    have hp : p ≠ x := by
+      intro e'; subst e'; simp [resolve, hx] at h
+    simp only [resolve, upd, hp, if_false] at h ⊢
+    split at h
+    · simp at h
+    · simpa using h
+    · exact ih _ _ _ h
+
+theorem inodeOf_file {dir : String → Option Entry} {p : String} {i : Nat}
+    (h : dir p = some (.file i)) : inodeOf dir p = some i := by
+  simp [inodeOf, resolve_file linkFuel h]
+
+theorem inodeOf_resolve {dir : String → Option Entry} {p : String} {i : Nat}
+    (h : inodeOf dir p = some i) : ∃ q, resolve dir linkFuel p = some (q, some i) := by
+  unfold inodeOf at h
+  split at h
+  · rename_i q j hr; cases h; exact ⟨q, hr⟩
+  · cases h
+
+theorem inodeOf_end {dir : String → Option Entry} {p : String} {i : Nat}
+    (h : inodeOf dir p = some i) : ∃ q, dir q = some (.file i) := by
+  obtain ⟨q, hr⟩ := inodeOf_resolve h
+  exact ⟨q, resolve_end _ _ _ _ hr⟩
+
+theorem inodeOf_upd_absent {dir : String → Option Entry} {x p : String} {i : Nat} (e : Option Entry)
+    (hx : dir x = none) (h : inodeOf dir p = some i) : inodeOf (upd dir x e) p = some i := by
+  obtain ⟨q, hr⟩ := inodeOf_resolve h
+  simp [inodeOf, resolve_upd_absent e hx _ _ _ _ hr]
+
+/-! ## the invariant of the atomic-replace shape -/
+
+/-- Quiescent start: `path` leads (directly or through symbolic links) to the file `i0` whose content
+`old` is entirely on stable storage; every inode in the directory is below `next`. -/
+def BaseAt (path : String) (old : List Nat) (i0 : Nat) (s : Fs) : Prop :=
+  inodeOf s.dir path = some i0 ∧ s.file i0 = ⟨old, old.length⟩ ∧ (∀ q i, s.dir q = some (.file i) → i < s.next)
+
+def Base (path : String) (old : List Nat) (s : Fs) : Prop := ∃ i0, BaseAt path old i0 s
+
+/-- `path` still leads to the untouched old file `i0`; `tmp` is a regular file entry for a different inode `i1`. -/
+def Pre (path : String) (old : List Nat) (i0 : Nat) (tmp : String) (i1 : Nat) (s : Fs) : Prop :=
+  inodeOf s.dir path = some i0 ∧ s.file i0 = ⟨old, old.length⟩ ∧ i1 ≠ i0 ∧ tmp ≠ path ∧ s.dir tmp = some (.file i1)
+
+def Inv (path : String) (old new : List Nat) (i0 : Nat) : Phase → Fs → List FsOp → Prop
+  | .start, s, rest => BaseAt path old i0 s ∧ pending rest = new ∧ tmpPrivate s path rest = true
   | .writing fd tmp, s, rest =>
-    ∃ i1, Pre path old tmp i1 s ∧ s.fd fd = some i1 ∧ (s.file i1).data ++ pending rest = new
-  | .synced _ tmp, s, _ => ∃ i1, Pre path old tmp i1 s ∧ s.file i1 = ⟨new, new.length⟩
-  | .closed tmp, s, _ => ∃ i1, Pre path old tmp i1 s ∧ s.file i1 = ⟨new, new.length⟩
-  | .done _, s, _ => ∃ i1, s.dir path = some i1 ∧ s.file i1 = ⟨new, new.length⟩
+    ∃ i1, Pre path old i0 tmp i1 s ∧ s.fd fd = some i1 ∧ (s.file i1).data ++ pending rest = new
+  | .synced _ tmp, s, _ => ∃ i1, Pre path old i0 tmp i1 s ∧ s.file i1 = ⟨new, new.length⟩
+  | .closed tmp, s, _ => ∃ i1, Pre path old i0 tmp i1 s ∧ s.file i1 = ⟨new, new.length⟩
+  | .done _, s, _ => ∃ i1, i1 ≠ i0 ∧ s.dir path = some (.file i1) ∧ s.file i1 = ⟨new, new.length⟩ ∧
+      s.file i0 = ⟨old, old.length⟩
 
 def Phase.post : Phase → Bool
   | .synced .. | .closed .. | .done .. => true
@@ -59,232 +145,293 @@ theorem post_no_writes (path : String) : ∀ (rest : List FsOp) (ph : Phase), ph
       rw [this.2]; exact ih ph' this.1 hs
     · simp at hs
 
-theorem upd_same {α β} [DecidableEq α] (f : α → β) (a : α) (b : β) : upd f a b a = b := by simp [upd]
-theorem upd_other {α β} [DecidableEq α] (f : α → β) (a x : α) (b : β) (h : x ≠ a) : upd f a b x = f x := by
-  simp [upd, h]
+theorem image_of_synced {s : Fs} {path : String} {i : Nat} {x c : List Nat}
+    (hd : inodeOf s.dir path = some i) (hf : s.file i = ⟨x, x.length⟩) (hc : IsImage s path c) : c = x := by
+  obtain ⟨j, hj, n, h1, h2, hc⟩ := hc
+  rw [hd] at hj; cases hj
+  rw [hf] at h1 h2 hc; simp at h1 h2 hc
+  have : n = x.length := by omega
+  subst this; simpa using hc
 
-theorem inv_images {path : String} {old new : List Nat} {ph : Phase} {s : Fs} {rest : List FsOp}
-    (h : Inv path old new ph s rest) : ∀ c, IsImage s path c → c = old ∨ c = new := by
-  intro c ⟨i, hi, n, h1, h2, hc⟩
-  have pre : ∀ tmp i1, Pre path old tmp i1 s → c = old := by
-    intro tmp i1 ⟨i0, hd, hf, _⟩
-    rw [hd] at hi; cases hi
-    rw [hf] at h1 h2 hc; simp at h1 h2 hc
-    have : n = old.length := by omega
-    subst this; simpa using hc
+theorem synced_has_image {s : Fs} {path : String} {i : Nat} {x : List Nat}
+    (hd : inodeOf s.dir path = some i) (hf : s.file i = ⟨x, x.length⟩) : IsImage s path x :=
+  ⟨i, hd, x.length, by simp [hf], by simp [hf], by simp [hf]⟩
+
+theorem inv_images {path : String} {old new : List Nat} {i0 : Nat} {ph : Phase} {s : Fs} {rest : List FsOp}
+    (h : Inv path old new i0 ph s rest) : ∀ c, IsImage s path c → c = old ∨ c = new := by
+  intro c hc
+  have pre : ∀ tmp i1, Pre path old i0 tmp i1 s → c = old := fun tmp i1 ⟨hd, hf, _⟩ => image_of_synced hd hf hc
   cases ph with
-  | start =>
-    obtain ⟨⟨i0, hd, hf, _⟩, _⟩ := h
-    rw [hd] at hi; cases hi
-    rw [hf] at h1 h2 hc; simp at h1 h2 hc
-    have : n = old.length := by omega
-    subst this; left; simpa using hc
+  | start => obtain ⟨⟨hd, hf, _⟩, _⟩ := h; exact .inl (image_of_synced hd hf hc)
   | writing fd tmp => obtain ⟨i1, hp, _⟩ := h; exact .inl (pre tmp i1 hp)
   | synced fd tmp => obtain ⟨i1, hp, _⟩ := h; exact .inl (pre tmp i1 hp)
   | closed tmp => obtain ⟨i1, hp, _⟩ := h; exact .inl (pre tmp i1 hp)
-  | done o =>
-    obtain ⟨i1, hd, hf⟩ := h
-    rw [hd] at hi; cases hi
-    rw [hf] at h1 h2 hc; simp at h1 h2 hc
-    have : n = new.length := by omega
-    subst this; right; simpa using hc
+  | done o => obtain ⟨i1, _, hd, hf, _⟩ := h; exact .inr (image_of_synced (inodeOf_file hd) hf hc)
 
-theorem inv_step {path : String} {old new : List Nat} {ph ph' : Phase} {s : Fs} {op : FsOp}
-    {rest : List FsOp} (h : Inv path old new ph s (op :: rest)) (hn : ph.next path op = some ph')
-    (hs : shapeFrom path ph' rest = true) : Inv path old new ph' (step s op) rest := by
+theorem inv_exists {path : String} {old new : List Nat} {i0 : Nat} {ph : Phase} {s : Fs} {rest : List FsOp}
+    (h : Inv path old new i0 ph s rest) : ∃ c, IsImage s path c := by
+  have pre : ∀ tmp i1, Pre path old i0 tmp i1 s → ∃ c, IsImage s path c :=
+    fun tmp i1 ⟨hd, hf, _⟩ => ⟨old, synced_has_image hd hf⟩
+  cases ph with
+  | start => obtain ⟨⟨hd, hf, _⟩, _⟩ := h; exact ⟨old, synced_has_image hd hf⟩
+  | writing fd tmp => obtain ⟨i1, hp, _⟩ := h; exact pre tmp i1 hp
+  | synced fd tmp => obtain ⟨i1, hp, _⟩ := h; exact pre tmp i1 hp
+  | closed tmp => obtain ⟨i1, hp, _⟩ := h; exact pre tmp i1 hp
+  | done o => obtain ⟨i1, _, hd, hf, _⟩ := h; exact ⟨new, synced_has_image (inodeOf_file hd) hf⟩
+
+/-- in every phase the file that held the old configuration is untouched -/
+theorem inv_old_kept {path : String} {old new : List Nat} {i0 : Nat} {ph : Phase} {s : Fs} {rest : List FsOp}
+    (h : Inv path old new i0 ph s rest) : s.file i0 = ⟨old, old.length⟩ := by
+  cases ph with
+  | start => exact h.1.2.1
+  | writing fd tmp => obtain ⟨i1, hp, _⟩ := h; exact hp.2.1
+  | synced fd tmp => obtain ⟨i1, hp, _⟩ := h; exact hp.2.1
+  | closed tmp => obtain ⟨i1, hp, _⟩ := h; exact hp.2.1
+  | done o => obtain ⟨i1, _, _, _, hf⟩ := h; exact hf
+
+theorem inv_step {path : String} {old new : List Nat} {i0 : Nat} {ph ph' : Phase} {s : Fs} {op : FsOp}
+    {rest : List FsOp} (h : Inv path old new i0 ph s (op :: rest)) (hn : ph.next path op = some ph')
+    (hs : shapeFrom path ph' rest = true) : Inv path old new i0 ph' (step s op) rest := by
   cases ph with
   | start =>
     cases op <;> simp [Phase.next] at hn
     rename_i fd tmp
     obtain ⟨hne, rfl⟩ := hn
-    obtain ⟨⟨i0, hd, hf, hal, hlt⟩, hp⟩ := h
+    obtain ⟨⟨hd, hf, hlt⟩, hp, hpriv⟩ := h
     simp only [pending] at hp
+    simp only [tmpPrivate, privateName] at hpriv
     cases hq : s.dir tmp with
-    | some i =>
-      have hi : i ≠ i0 := fun e => hal tmp hne (e ▸ hq)
-      refine ⟨i, ⟨i0, ?_, ?_, hi, hne, ?_⟩, ?_, ?_⟩ <;> simp [step, hq, upd, hd, hi.symm, hf, hp]
     | none =>
-      have hi : s.next ≠ i0 := by have := hlt path i0 hd; omega
-      refine ⟨s.next, ⟨i0, ?_, ?_, hi, hne, ?_⟩, ?_, ?_⟩ <;>
-        simp [step, hq, upd, hd, hi.symm, hf, hp, Ne.symm hne]
+      have hr := resolve_absent linkFuel hq
+      obtain ⟨q0, hq0⟩ := inodeOf_end hd
+      have hi : s.next ≠ i0 := by have := hlt q0 i0 hq0; omega
+      have hd' := inodeOf_upd_absent (some (.file s.next)) hq hd
+      refine ⟨s.next, ⟨?_, ?_, hi, hne, ?_⟩, ?_, ?_⟩ <;> simp [step, hr, upd, hd', hi.symm, hf, hp]
+    | some e =>
+      cases e with
+      | link t => simp [hq] at hpriv
+      | file i =>
+        simp only [hq, hd] at hpriv
+        have hi : i ≠ i0 := by intro e; subst e; simp at hpriv
+        have hr := resolve_file linkFuel hq
+        refine ⟨i, ⟨?_, ?_, hi, hne, ?_⟩, ?_, ?_⟩ <;> simp [step, hr, upd, hd, hi.symm, hf, hp, hq]
   | writing fd tmp =>
-    obtain ⟨i1, ⟨i0, hd, hf, hi, hne, ht⟩, hfd, hdata⟩ := h
+    obtain ⟨i1, ⟨hd, hf, hi, hne, ht⟩, hfd, hdata⟩ := h
     cases op <;> simp [Phase.next] at hn
     · rename_i fd' bs
       obtain ⟨rfl, rfl⟩ := hn
       simp only [pending] at hdata
-      refine ⟨i1, ⟨i0, ?_, ?_, hi, hne, ?_⟩, ?_, ?_⟩ <;>
+      refine ⟨i1, ⟨?_, ?_, hi, hne, ?_⟩, ?_, ?_⟩ <;>
         simp [step, hfd, upd, hd, hi.symm, hf, ht, ← hdata, List.append_assoc]
     · rename_i fd'
       obtain ⟨rfl, rfl⟩ := hn
       have hnw := post_no_writes path rest _ rfl hs
       simp only [pending, hnw, List.append_nil] at hdata
-      refine ⟨i1, ⟨i0, ?_, ?_, hi, hne, ?_⟩, ?_⟩ <;>
+      refine ⟨i1, ⟨?_, ?_, hi, hne, ?_⟩, ?_⟩ <;>
         simp [step, hfd, upd, hd, hi.symm, hf, ht, hdata]
   | synced fd tmp =>
-    obtain ⟨i1, ⟨i0, hd, hf, hi, hne, ht⟩, hnew⟩ := h
+    obtain ⟨i1, ⟨hd, hf, hi, hne, ht⟩, hnew⟩ := h
     cases op <;> simp [Phase.next] at hn
     · obtain ⟨_, rfl⟩ := hn
-      exact ⟨i1, ⟨i0, by simp [step, hd], by simp [step, hf], hi, hne, by simp [step, ht]⟩, by simp [step, hnew]⟩
+      exact ⟨i1, ⟨by simp [step, hd], by simp [step, hf], hi, hne, by simp [step, ht]⟩, by simp [step, hnew]⟩
     · obtain ⟨⟨rfl, rfl⟩, rfl⟩ := hn
-      exact ⟨i1, by simp [step, ht, upd], by simp [step, ht, hnew]⟩
+      exact ⟨i1, hi, by simp [step, ht, upd], by simp [step, ht, hnew], by simp [step, ht, hf]⟩
   | closed tmp =>
-    obtain ⟨i1, ⟨i0, hd, hf, hi, hne, ht⟩, hnew⟩ := h
+    obtain ⟨i1, ⟨hd, hf, hi, hne, ht⟩, hnew⟩ := h
     cases op <;> simp [Phase.next] at hn
     obtain ⟨⟨rfl, rfl⟩, rfl⟩ := hn
-    exact ⟨i1, by simp [step, ht, upd], by simp [step, ht, hnew]⟩
+    exact ⟨i1, hi, by simp [step, ht, upd], by simp [step, ht, hnew], by simp [step, ht, hf]⟩
   | done o =>
-    obtain ⟨i1, hd, hnew⟩ := h
+    obtain ⟨i1, hi, hd, hnew, hf⟩ := h
     cases o with
     | none => simp [Phase.next] at hn
     | some fd =>
       cases op <;> simp [Phase.next] at hn
       obtain ⟨_, rfl⟩ := hn
-      exact ⟨i1, by simp [step, hd], by simp [step, hnew]⟩
+      exact ⟨i1, hi, by simp [step, hd], by simp [step, hnew], by simp [step, hf]⟩
 
 theorem run_cons (s : Fs) (op : FsOp) (ops : List FsOp) : run s (op :: ops) = run (step s op) ops := rfl
 
-theorem shape_safe_from (path : String) (old new : List Nat) :
-    ∀ (ops : List FsOp) (ph : Phase) (s : Fs), Inv path old new ph s ops → shapeFrom path ph ops = true →
-      ∀ k c, IsImage (run s (ops.take k)) path c → c = old ∨ c = new := by
+/-- the invariant holds (in some phase) after every prefix of a list of the shape -/
+theorem inv_prefix (path : String) (old new : List Nat) (i0 : Nat) :
+    ∀ (ops : List FsOp) (ph : Phase) (s : Fs), Inv path old new i0 ph s ops → shapeFrom path ph ops = true →
+      ∀ k, ∃ ph' rest, Inv path old new i0 ph' (run s (ops.take k)) rest := by
   intro ops
   induction ops with
-  | nil => intro ph s h _ k c hc; simp [run] at hc; exact inv_images h c hc
+  | nil => intro ph s h _ k; exact ⟨ph, [], by simpa [run] using h⟩
   | cons op rest ih =>
-    intro ph s h hs k c hc
+    intro ph s h hs k
     cases k with
-    | zero => simp [run] at hc; exact inv_images h c hc
-    | succ k =>
-      rw [List.take_succ_cons, run_cons] at hc
-      have hs' := hs
-      rw [shapeFrom] at hs'
-      · split at hs'
-        · rename_i ph' hn
-          exact ih ph' (step s op) (inv_step h hn hs') hs' k c hc
-        · simp at hs'
-
-/-- **atomic_replace_safe.** From a quiescent state where `path` holds `old`, for every op list of
-the atomic-replace shape writing `new` in total, a crash after ANY prefix leaves `path` with exactly
-`old` or exactly `new` — never a truncated or partial file. -/
-theorem atomic_replace_safe (path : String) (old new : List Nat) (s : Fs) (ops : List FsOp)
-    (hs : Base path old s) (hshape : isAtomicReplace path ops = true) (hnew : pending ops = new) :
-    ∀ k c, IsImage (run s (ops.take k)) path c → c = old ∨ c = new :=
-  shape_safe_from path old new ops .start s ⟨hs, hnew⟩ hshape
-
-/-- after the complete save the only image is the new content (the save is durable once it returns) -/
-theorem atomic_replace_complete (path : String) (old new : List Nat) (s : Fs) (ops : List FsOp)
-    (hs : Base path old s) (hshape : isAtomicReplace path ops = true) (hnew : pending ops = new) :
-    ∀ c, IsImage (run s ops) path c → c = new := by
-  suffices h : ∀ (ops : List FsOp) (ph : Phase) (s : Fs), Inv path old new ph s ops →
-      shapeFrom path ph ops = true → ∀ c, IsImage (run s ops) path c → c = new from
-    h ops .start s ⟨hs, hnew⟩ hshape
-  intro ops
-  induction ops with
-  | nil =>
-    intro ph s h hsh c ⟨i, hi, n, h1, h2, hc⟩
-    cases ph <;> simp [shapeFrom] at hsh
-    obtain ⟨i1, hd, hf⟩ := h
-    simp only [run, List.foldl_nil] at hi h1 h2 hc
-    rw [hd] at hi; cases hi
-    rw [hf] at h1 h2 hc; simp at h1 h2 hc
-    have : n = new.length := by omega
-    subst this; simpa using hc
-  | cons op rest ih =>
-    intro ph s h hsh c hc
-    rw [run_cons] at hc
-    have hs' := hsh
-    rw [shapeFrom] at hs'
-    · split at hs'
-      · rename_i ph' hn
-        exact ih ph' (step s op) (inv_step h hn hs') hs' c hc
-      · simp at hs'
-
-theorem inv_exists {path : String} {old new : List Nat} {ph : Phase} {s : Fs} {rest : List FsOp}
-    (h : Inv path old new ph s rest) : ∃ c, IsImage s path c := by
-  have pre : ∀ tmp i1, Pre path old tmp i1 s → ∃ c, IsImage s path c := by
-    intro tmp i1 ⟨i0, hd, hf, _⟩
-    exact ⟨old, i0, hd, old.length, by simp [hf], by simp [hf], by simp [hf]⟩
-  cases ph with
-  | start =>
-    obtain ⟨⟨i0, hd, hf, _⟩, _⟩ := h
-    exact ⟨old, i0, hd, old.length, by simp [hf], by simp [hf], by simp [hf]⟩
-  | writing fd tmp => obtain ⟨i1, hp, _⟩ := h; exact pre tmp i1 hp
-  | synced fd tmp => obtain ⟨i1, hp, _⟩ := h; exact pre tmp i1 hp
-  | closed tmp => obtain ⟨i1, hp, _⟩ := h; exact pre tmp i1 hp
-  | done o =>
-    obtain ⟨i1, hd, hf⟩ := h
-    exact ⟨new, i1, hd, new.length, by simp [hf], by simp [hf], by simp [hf]⟩
-
-/-- the config path exists (has an image) after every prefix of an atomic replace: the statement of
-`atomic_replace_safe` is never vacuous -/
-theorem atomic_replace_exists (path : String) (old new : List Nat) (s : Fs) (ops : List FsOp)
-    (hs : Base path old s) (hshape : isAtomicReplace path ops = true) (hnew : pending ops = new) :
-    ∀ k, ∃ c, IsImage (run s (ops.take k)) path c := by
-  suffices h : ∀ (ops : List FsOp) (ph : Phase) (s : Fs), Inv path old new ph s ops →
-      shapeFrom path ph ops = true → ∀ k, ∃ c, IsImage (run s (ops.take k)) path c from
-    h ops .start s ⟨hs, hnew⟩ hshape
-  intro ops
-  induction ops with
-  | nil => intro ph s h _ k; simpa [run] using inv_exists h
-  | cons op rest ih =>
-    intro ph s h hsh k
-    cases k with
-    | zero => simpa [run] using inv_exists h
+    | zero => exact ⟨ph, op :: rest, by simpa [run] using h⟩
     | succ k =>
       rw [List.take_succ_cons, run_cons]
-      have hs' := hsh
+      have hs' := hs
       rw [shapeFrom] at hs'
       split at hs'
       · rename_i ph' hn
         exact ih ph' (step s op) (inv_step h hn hs') hs' k
       · simp at hs'
 
+/-- after the complete list the phase is `done` -/
+theorem inv_final (path : String) (old new : List Nat) (i0 : Nat) :
+    ∀ (ops : List FsOp) (ph : Phase) (s : Fs), Inv path old new i0 ph s ops → shapeFrom path ph ops = true →
+      ∃ o, Inv path old new i0 (.done o) (run s ops) [] := by
+  intro ops
+  induction ops with
+  | nil =>
+    intro ph s h hsh
+    cases ph <;> simp [shapeFrom] at hsh
+    exact ⟨_, by simpa [run] using h⟩
+  | cons op rest ih =>
+    intro ph s h hsh
+    rw [run_cons]
+    have hs' := hsh
+    rw [shapeFrom] at hs'
+    split at hs'
+    · rename_i ph' hn
+      exact ih ph' (step s op) (inv_step h hn hs') hs'
+    · simp at hs'
 
-/-- **truncate_in_place_unsafe.** If the save opens the config path itself with truncation, the crash
-image right after that first operation is the empty file: neither the (non-empty) old nor the
-(non-empty) new configuration — certificate and key are gone. -/
+/-- **atomic_replace_safe.** From a quiescent state where `path` leads — directly or through a chain
+of symbolic links — to a file holding `old`, for every op list of the atomic-replace shape with a
+private temporary name writing `new` in total, a crash after ANY prefix leaves `path` (read through
+links) with exactly `old` or exactly `new` — never a truncated or partial file. -/
+theorem atomic_replace_safe (path : String) (old new : List Nat) (s : Fs) (ops : List FsOp)
+    (hs : Base path old s) (hshape : isAtomicReplace path ops = true) (htmp : tmpPrivate s path ops = true)
+    (hnew : pending ops = new) :
+    ∀ k c, IsImage (run s (ops.take k)) path c → c = old ∨ c = new := by
+  obtain ⟨i0, hb⟩ := hs
+  intro k c hc
+  obtain ⟨ph', rest, h⟩ := inv_prefix path old new i0 ops .start s ⟨hb, hnew, htmp⟩ hshape k
+  exact inv_images h c hc
+
+/-- after the complete save the only image is the new content (the save is durable once it returns),
+and the config path is a regular file (a symbolic link at the config path has been replaced) -/
+theorem atomic_replace_complete (path : String) (old new : List Nat) (s : Fs) (ops : List FsOp)
+    (hs : Base path old s) (hshape : isAtomicReplace path ops = true) (htmp : tmpPrivate s path ops = true)
+    (hnew : pending ops = new) :
+    (∀ c, IsImage (run s ops) path c → c = new) ∧ ∃ i, (run s ops).dir path = some (.file i) := by
+  obtain ⟨i0, hb⟩ := hs
+  obtain ⟨o, i1, _, hd, hf, _⟩ := inv_final path old new i0 ops .start s ⟨hb, hnew, htmp⟩ hshape
+  exact ⟨fun c hc => image_of_synced (inodeOf_file hd) hf hc, i1, hd⟩
+
+/-- the config path exists (has an image) after every prefix of an atomic replace: the statement of
+`atomic_replace_safe` is never vacuous -/
+theorem atomic_replace_exists (path : String) (old new : List Nat) (s : Fs) (ops : List FsOp)
+    (hs : Base path old s) (hshape : isAtomicReplace path ops = true) (htmp : tmpPrivate s path ops = true)
+    (hnew : pending ops = new) :
+    ∀ k, ∃ c, IsImage (run s (ops.take k)) path c := by
+  obtain ⟨i0, hb⟩ := hs
+  intro k
+  obtain ⟨ph', rest, h⟩ := inv_prefix path old new i0 ops .start s ⟨hb, hnew, htmp⟩ hshape k
+  exact inv_exists h
+
+/-- **atomic_replace_never_writes_old.** The save never writes the file that held the previous
+configuration: after every prefix that file (the inode the config path led to at the start — for a
+symbolic-link config path, the link's target) still holds exactly `old`, fully on stable storage. -/
+theorem atomic_replace_never_writes_old (path : String) (old new : List Nat) (i0 : Nat) (s : Fs) (ops : List FsOp)
+    (hs : BaseAt path old i0 s) (hshape : isAtomicReplace path ops = true) (htmp : tmpPrivate s path ops = true)
+    (hnew : pending ops = new) :
+    ∀ k, (run s (ops.take k)).file i0 = ⟨old, old.length⟩ := by
+  intro k
+  obtain ⟨ph', rest, h⟩ := inv_prefix path old new i0 ops .start s ⟨hs, hnew, htmp⟩ hshape k
+  exact inv_old_kept h
+
+/-- **truncate_in_place_unsafe.** If the save opens the config path itself with truncation — a
+regular file, or a symbolic link, which the open follows — the crash image right after that first
+operation is the empty file: neither the (non-empty) old nor the (non-empty) new configuration —
+certificate and key are gone. -/
 theorem truncate_in_place_unsafe (path : String) (old new : List Nat) (s : Fs) (ops : List FsOp)
     (hs : Base path old s) (hshape : isTruncateInPlace path ops = true)
     (hold : old ≠ []) (hnew : new ≠ []) :
     ∃ k c, IsImage (run s (ops.take k)) path c ∧ c ≠ old ∧ c ≠ new := by
-  obtain ⟨i0, hd, hf, _, _⟩ := hs
+  obtain ⟨i0, hd, hf, _⟩ := hs
+  obtain ⟨q, hr⟩ := inodeOf_resolve hd
   cases ops with
   | nil => simp [isTruncateInPlace] at hshape
   | cons op rest =>
     cases op <;> simp [isTruncateInPlace] at hshape
     subst hshape
     refine ⟨1, [], ⟨i0, ?_, 0, ?_, ?_, ?_⟩, Ne.symm hold, Ne.symm hnew⟩ <;>
-      simp [run, step, hd, upd]
+      simp [run, step, hr, hd, upd]
+
+/-- **truncate_through_link_unsafe.** The config path is a symbolic link to the file `tgt` holding
+`old`; a save that opens the config path with truncation ("save through the link") empties the file
+the link points to: a crash right after the open leaves the config path — and `tgt` — empty. -/
+theorem truncate_through_link_unsafe (path tgt : String) (i0 fd : Nat) (old new : List Nat) (s : Fs)
+    (rest : List FsOp) (hl : s.dir path = some (.link tgt)) (ht : s.dir tgt = some (.file i0))
+    (_hf : s.file i0 = ⟨old, old.length⟩) (hold : old ≠ []) (hnew : new ≠ []) :
+    ∃ k c, IsImage (run s ((FsOp.openTrunc fd path :: rest).take k)) path c ∧
+      IsImage (run s ((FsOp.openTrunc fd path :: rest).take k)) tgt c ∧ c ≠ old ∧ c ≠ new := by
+  have hrt : resolve s.dir linkFuel path = some (tgt, some i0) := by
+    have : linkFuel = 39 + 1 := rfl
+    rw [this, resolve_link _ hl, resolve_file _ ht]
+  have hdp : inodeOf s.dir path = some i0 := by simp [inodeOf, hrt]
+  have hdt : inodeOf s.dir tgt = some i0 := inodeOf_file ht
+  refine ⟨1, [], ⟨i0, ?_, 0, ?_, ?_, ?_⟩, ⟨i0, ?_, 0, ?_, ?_, ?_⟩, Ne.symm hold, Ne.symm hnew⟩ <;>
+    simp [run, step, hrt, hdp, hdt, upd]
 
 /-- **rename_without_fsync_unsafe.** Temp file + rename but no fsync before the rename: after the
 complete save the config path may still hold an empty file after a crash. -/
 theorem rename_without_fsync_unsafe (path tmp : String) (fd : Nat) (old new : List Nat) (s : Fs)
-    (hs : Base path old s) (_hne : tmp ≠ path) (hold : old ≠ []) (hnew : new ≠ []) :
+    (_hs : Base path old s) (_hne : tmp ≠ path) (hnl : ∀ t, s.dir tmp ≠ some (.link t))
+    (hold : old ≠ []) (hnew : new ≠ []) :
     ∃ c, IsImage (run s [.openTrunc fd tmp, .write fd new, .close fd, .rename tmp path]) path c ∧
       c ≠ old ∧ c ≠ new := by
-  obtain ⟨i0, hd, hf, hal, hlt⟩ := hs
   refine ⟨[], ?_, Ne.symm hold, Ne.symm hnew⟩
   cases hq : s.dir tmp with
-  | some i =>
-    refine ⟨i, ?_, 0, ?_, ?_, ?_⟩ <;> simp [run, step, hq, upd]
+  | some e =>
+    cases e with
+    | link t => exact absurd hq (hnl t)
+    | file i =>
+      have hr := resolve_file linkFuel hq
+      have hd : (run s [.openTrunc fd tmp, .write fd new, .close fd, .rename tmp path]).dir path = some (.file i) := by
+        simp [run, step, hr, hq, upd]
+      refine ⟨i, inodeOf_file hd, 0, ?_, ?_, ?_⟩ <;> simp [run, step, hr, hq, upd]
   | none =>
-    refine ⟨s.next, ?_, 0, ?_, ?_, ?_⟩ <;> simp [run, step, hq, upd]
+    have hr := resolve_absent linkFuel hq
+    have hd : (run s [.openTrunc fd tmp, .write fd new, .close fd, .rename tmp path]).dir path = some (.file s.next) := by
+      simp [run, step, hr, upd]
+    refine ⟨s.next, inodeOf_file hd, 0, ?_, ?_, ?_⟩ <;> simp [run, step, hr, upd]
 
 /-! ## non-vacuity -/
 
-def exFs : Fs := { dir := fun p => if p = "cfg" then some 0 else none, file := fun _ => ⟨[1, 2, 3], 3⟩,
+def exFs : Fs := { dir := fun p => if p = "cfg" then some (.file 0) else none, file := fun _ => ⟨[1, 2, 3], 3⟩,
                    fd := fun _ => none, next := 1 }
+/-- the config path is a symbolic link to a link to the real file -/
+def exFsLink : Fs :=
+  { dir := fun p => if p = "cfg" then some (.link "dot") else if p = "dot" then some (.link "real")
+                    else if p = "real" then some (.file 0) else none,
+    file := fun _ => ⟨[1, 2, 3], 3⟩, fd := fun _ => none, next := 1 }
 def exOps : List FsOp :=
   [.openTrunc 7 "cfg.tmp", .write 7 [4, 5], .write 7 [6], .fsync 7, .close 7, .rename "cfg.tmp" "cfg"]
 
-example : Base "cfg" [1, 2, 3] exFs := ⟨0, rfl, rfl, by intro q hq; simp [exFs, hq], by
-  intro q i h; simp [exFs] at h; simp [exFs, ← h.2]⟩
+example : Base "cfg" [1, 2, 3] exFs := ⟨0, by decide, rfl, by
+  intro q i h; simp only [exFs] at h ⊢; split at h <;> simp at h; omega⟩
+example : Base "cfg" [1, 2, 3] exFsLink := ⟨0, by decide, rfl, by
+  intro q i h; simp only [exFsLink] at h ⊢; repeat' split at h
+  all_goals simp at h
+  omega⟩
 example : isAtomicReplace "cfg" exOps = true := by decide
+example : tmpPrivate exFs "cfg" exOps = true ∧ tmpPrivate exFsLink "cfg" exOps = true := by decide
 example : pending exOps = [4, 5, 6] := by decide
 example : imageSync (run exFs exOps) "cfg" = some [4, 5, 6] ∧ imageLossy (run exFs exOps) "cfg" = some [4, 5, 6] ∧
     imageLossy (run exFs (exOps.take 4)) "cfg" = some [1, 2, 3] := by decide
+-- symbolic-link config path: old through the link before the rename, new (regular file) after it; the
+-- link's target keeps the old content
+example : imageSync (run exFsLink (exOps.take 5)) "cfg" = some [1, 2, 3] ∧
+    imageLossy (run exFsLink exOps) "cfg" = some [4, 5, 6] ∧
+    (run exFsLink exOps).dir "cfg" = some (.file 1) ∧
+    imageLossy (run exFsLink exOps) "real" = some [1, 2, 3] := by decide
+-- a temporary name that is a symbolic link to the config file is not private
+def exFsTmpLink : Fs :=
+  { exFs with dir := fun p => if p = "cfg" then some (.file 0) else if p = "cfg.tmp" then some (.link "cfg") else none }
+example : tmpPrivate exFsTmpLink "cfg" exOps = false := by decide
 example : isTruncateInPlace "cfg" [.openTrunc 7 "cfg", .write 7 [4, 5], .close 7] = true := by decide
 example : isAtomicReplace "cfg" [.openTrunc 7 "cfg", .write 7 [4, 5], .close 7] = false := by decide
 example : isAtomicReplace "cfg" [.openTrunc 7 "t", .write 7 [4], .close 7, .rename "t" "cfg"] = false := by decide
+-- saving through the link: the first crash image of the config path is the empty file
+example : imageSync (run exFsLink [.openTrunc 7 "cfg"]) "cfg" = some [] ∧
+    imageSync (run exFsLink [.openTrunc 7 "cfg"]) "real" = some [] := by decide
 
 end Specter.C45
